@@ -137,7 +137,9 @@ def _propagate_glyph_anchors(glyphSet, composite, processed, modified, categorie
         glyph = glyphSet[component.baseGlyph]
         anchor_names |= {a.name for a in glyph.anchors}
 
-    for anchor_name in anchor_names:
+    # (sorted: a numbered anchor made here and a component's own anchor of the
+    # same name must not be resolved by the iteration order of a set)
+    for anchor_name in sorted(anchor_names):
         # don't add if composite glyph already contains this anchor OR any
         # associated ligature anchors (e.g. "top_1, top_2" for "top")
         if not any(a.name.startswith(anchor_name) for a in composite.anchors):
